@@ -561,4 +561,190 @@ theorem validate_noReuse (r : Route) (h : validate r = true) : validateRec r = t
 example : validate (.series "a" "c" [.pool "a" "b" 0, .series "b" "c" [.pool "b" "c" 1]]) = true := by decide
 example : validate (.series "a" "a" [.pool "a" "b" 0, .pool "b" "a" 0]) = false := by decide
 
+/-! ## T6 — quote = execute when no pool is reused -/
+
+section quote
+variable {PS : Type} (M : PoolSpec PS) (sender : Addr)
+
+/-- what the theorem needs of a pool: a swap that succeeds returns what the read-only quote returns on the same pool
+    state (checked on every recorded pool call of the correspondence run: oracle `pool_swap_eq_quote`) -/
+def SwapMatchesQuoteIn : Prop :=
+  ∀ ps din dout a out ps', M.swapIn ps din dout a = .ok (out, ps') → M.calcIn ps din dout a = .ok out
+
+mutual
+theorem inspectIn_quote (hs : ∀ id, sender ≠ poolAddr id) (hc : SwapMatchesQuoteIn M) : (r : Route) → ∀ (a : Int) (w : World PS) (res : Int) (rr : RResult) (w' : World PS),
+    inspect (swapPoolIn M sender) genIn false r a w = .ok (res, rr, w') → r.poolIds.Nodup →
+    (∀ i, i ∉ r.poolIds → w'.pools i = w.pools i) ∧
+    (∀ w0 : World PS, (∀ i ∈ r.poolIds, w0.pools i = w.pools i) → inspect (calcPoolIn M w0) genIn false r a () = .ok (res, rr, ()))
+  | .pool din dout id => by
+    intro a w res rr w' h _
+    simp only [inspect] at h
+    obtain ⟨⟨out, w1⟩, h1, h⟩ := bind_ok h
+    simp only [genIn, Res.ok.injEq, Prod.mk.injEq] at h
+    obtain ⟨e1, e2, e3⟩ := h
+    subst e1 e2 e3
+    obtain ⟨a0, _, _, _, _, fr, ps, ps', hp, hsw, _⟩ := swapPoolIn_ok M h1 (hs id)
+    refine ⟨fun i hi => fr i (by simpa [Route.poolIds] using hi), ?_⟩
+    intro w0 hw0
+    have : w0.pools id = some ps := by rw [hw0 id (by simp [Route.poolIds]), hp]
+    have hna : ¬ a < 0 := by omega
+    simp [inspect, calcPoolIn, this, hna, hc ps din dout a out ps' hsw, Res.bind, genIn]
+  | .series din dout rs => by
+    intro a w res rr w' h hn
+    simp only [inspect, Bool.false_eq_true, if_false] at h
+    obtain ⟨⟨x, rrs, w1⟩, h1, h⟩ := bind_ok h
+    simp only [genIn, Res.ok.injEq, Prod.mk.injEq] at h
+    obtain ⟨e1, e2, e3⟩ := h
+    subst e1 e2 e3
+    obtain ⟨fr, q⟩ := seriesIn_quote hs hc rs a w x rrs w1 h1 (by simpa [Route.poolIds] using hn)
+    refine ⟨fun i hi => fr i (by simpa [Route.poolIds] using hi), ?_⟩
+    intro w0 hw0
+    have := q w0 (by simpa [Route.poolIds] using hw0)
+    simp [inspect, this, Res.bind, genIn]
+  | .parallel din dout rs ws => by
+    intro a w res rr w' h hn
+    simp only [inspect] at h
+    cases hw : parseWeights ws with
+    | none => simp [hw] at h
+    | some ds =>
+      simp only [hw] at h
+      by_cases hl : ds.length = rs.length
+      swap
+      · simp only [ne_eq, hl, not_false_eq_true, if_true] at h
+        split at h <;> try split at h
+        all_goals simp at h
+      · simp only [ne_eq, hl, not_true_eq_false, if_false] at h
+        obtain ⟨amounts, h0, h⟩ := bind_ok h
+        obtain ⟨⟨x, rrs, w1⟩, h1, h⟩ := bind_ok h
+        simp only [genIn, Res.ok.injEq, Prod.mk.injEq] at h
+        obtain ⟨e1, e2, e3⟩ := h
+        subst e1 e2 e3
+        obtain ⟨fr, q⟩ := parIn_quote hs hc rs amounts w x rrs w1 h1 (by simpa [Route.poolIds] using hn)
+        refine ⟨fun i hi => fr i (by simpa [Route.poolIds] using hi), ?_⟩
+        intro w0 hw0
+        have := q w0 (by simpa [Route.poolIds] using hw0)
+        simp [inspect, hw, hl, h0, this, Res.bind, genIn]
+  | .nil _ _ => by
+    intro a w res rr w' h _
+    simp [inspect] at h
+theorem seriesIn_quote (hs : ∀ id, sender ≠ poolAddr id) (hc : SwapMatchesQuoteIn M) : (rs : List Route) → ∀ (a : Int) (w : World PS) (res : Int) (rrs : List RResult) (w' : World PS),
+    inspectSeriesF (swapPoolIn M sender) genIn false rs a w = .ok (res, rrs, w') → (poolIdsL rs).Nodup →
+    (∀ i, i ∉ poolIdsL rs → w'.pools i = w.pools i) ∧
+    (∀ w0 : World PS, (∀ i ∈ poolIdsL rs, w0.pools i = w.pools i) → inspectSeriesF (calcPoolIn M w0) genIn false rs a () = .ok (res, rrs, ()))
+  | [] => by
+    intro a w res rrs w' h _
+    simp only [inspectSeriesF, Res.ok.injEq, Prod.mk.injEq] at h
+    obtain ⟨e1, e2, e3⟩ := h
+    subst e1 e2 e3
+    exact ⟨fun _ _ => rfl, fun _ _ => by simp [inspectSeriesF]⟩
+  | r :: rs => by
+    intro a w res rrs w' h hn
+    simp only [inspectSeriesF] at h
+    obtain ⟨⟨x, rr, w1⟩, h1, h⟩ := bind_ok h
+    obtain ⟨⟨y, rrs', w2⟩, h2, h⟩ := bind_ok h
+    simp only [Res.ok.injEq, Prod.mk.injEq] at h
+    obtain ⟨e1, e2, e3⟩ := h
+    subst e1 e2 e3
+    simp only [poolIdsL] at hn
+    rw [List.nodup_append] at hn
+    obtain ⟨n1, n2, dj⟩ := hn
+    obtain ⟨fr1, q1⟩ := inspectIn_quote hs hc r a w x rr w1 h1 n1
+    obtain ⟨fr2, q2⟩ := seriesIn_quote hs hc rs x w1 y rrs' w2 h2 n2
+    refine ⟨?_, ?_⟩
+    · intro i hi
+      simp only [poolIdsL, List.mem_append, not_or] at hi
+      rw [fr2 i hi.2, fr1 i hi.1]
+    · intro w0 hw0
+      have a1 := q1 w0 (fun i hi => hw0 i (by simp [poolIdsL, hi]))
+      have a2 := q2 w0 (fun i hi => by
+        rw [hw0 i (by simp [poolIdsL, hi])]
+        exact (fr1 i (fun hi' => dj i hi' i hi rfl)).symm)
+      simp [inspectSeriesF, a1, a2, Res.bind]
+theorem parIn_quote (hs : ∀ id, sender ≠ poolAddr id) (hc : SwapMatchesQuoteIn M) : (rs : List Route) → ∀ (amounts : List Int) (w : World PS) (res : Int) (rrs : List RResult) (w' : World PS),
+    inspectPar (swapPoolIn M sender) genIn false rs amounts w = .ok (res, rrs, w') → (poolIdsL rs).Nodup →
+    (∀ i, i ∉ poolIdsL rs → w'.pools i = w.pools i) ∧
+    (∀ w0 : World PS, (∀ i ∈ poolIdsL rs, w0.pools i = w.pools i) → inspectPar (calcPoolIn M w0) genIn false rs amounts () = .ok (res, rrs, ()))
+  | [] => by
+    intro amounts w res rrs w' h _
+    simp only [inspectPar, Res.ok.injEq, Prod.mk.injEq] at h
+    obtain ⟨e1, e2, e3⟩ := h
+    subst e1 e2 e3
+    exact ⟨fun _ _ => rfl, fun _ _ => by simp [inspectPar]⟩
+  | r :: rs => by
+    intro amounts w res rrs w' h hn
+    cases amounts with
+    | nil => simp [inspectPar] at h
+    | cons a as =>
+      simp only [inspectPar] at h
+      obtain ⟨⟨x, rr, w1⟩, h1, h⟩ := bind_ok h
+      obtain ⟨⟨y, rrs', w2⟩, h2, h⟩ := bind_ok h
+      simp only [Res.ok.injEq, Prod.mk.injEq] at h
+      obtain ⟨e1, e2, e3⟩ := h
+      subst e1 e2 e3
+      simp only [poolIdsL] at hn
+      rw [List.nodup_append] at hn
+      obtain ⟨n1, n2, dj⟩ := hn
+      obtain ⟨fr1, q1⟩ := inspectIn_quote hs hc r a w x rr w1 h1 n1
+      obtain ⟨fr2, q2⟩ := parIn_quote hs hc rs as w1 y rrs' w2 h2 n2
+      refine ⟨?_, ?_⟩
+      · intro i hi
+        simp only [poolIdsL, List.mem_append, not_or] at hi
+        rw [fr2 i hi.2, fr1 i hi.1]
+      · intro w0 hw0
+        have a1 := q1 w0 (fun i hi => hw0 i (by simp [poolIdsL, hi]))
+        have a2 := q2 w0 (fun i hi => by
+          rw [hw0 i (by simp [poolIdsL, hi])]
+          exact (fr1 i (fun hi' => dj i hi' i hi rfl)).symm)
+        simp [inspectPar, a1, a2, Res.bind]
+end
+
+/-- Quote = execute (exact-in). Full statement wanted: the query on the pre-state and the message agree in outcome
+    and result. Proved with the extra hypothesis spelled out: THE EXECUTION SUCCEEDED (the converse is false: a leg whose
+    amount rounds to zero is quoted but refused by the pool keeper — Witness/C03.lean, known finding C03-K1).
+    For a validated route (no pool twice) and pools whose successful swap returns their quote, the response of
+    Msg/SwapExactAmountIn is exactly what Query/CalculationSwapExactAmountIn answers on the pre-state. -/
+theorem quote_eq_execute_partial (rate : Dec) (prov : Option Addr) (r : Route) (a minOut : Int) (w w' : World PS) (resp : Resp)
+    (hs : ∀ id, sender ≠ poolAddr id) (hc : SwapMatchesQuoteIn M)
+    (h : msgSwapIn M rate sender prov r a minOut w = (.ok resp, w')) :
+    ∃ q, queryIn M rate prov.isSome r a w = .ok q ∧ q.result = resp.result ∧ q.fee = resp.fee ∧ q.amountOut = resp.amountOut := by
+  unfold msgSwapIn at h
+  by_cases hv : validate r = true
+  swap
+  · simp [hv] at h
+  by_cases ha : a ≤ 0
+  · simp [hv, ha] at h
+  by_cases hm : minOut ≤ 0
+  · simp [hv, ha, hm] at h
+  simp only [hv, ha, hm, Bool.not_true, Bool.false_eq_true, if_false] at h
+  cases hk : keeperSwapIn M rate sender prov r a minOut w with
+  | err c => simp [hk] at h
+  | panic k => simp [hk] at h
+  | ok x =>
+    obtain ⟨rr, fee, wf⟩ := x
+    simp only [hk, Prod.mk.injEq, Res.ok.injEq] at h
+    obtain ⟨e1, e2⟩ := h
+    subst e1 e2
+    unfold keeperSwapIn at hk
+    obtain ⟨⟨rr1, w1⟩, h1, hk⟩ := bind_ok hk
+    unfold swapRouteIn at h1
+    obtain ⟨⟨res, rr2, w2⟩, h2, h1⟩ := bind_ok h1
+    simp only [Res.ok.injEq, Prod.mk.injEq] at h1
+    obtain ⟨e1, e2⟩ := h1
+    subst e1 e2
+    simp only at hk
+    by_cases hlim : (feeIn prov.isSome rate rr2.tout.amount).1 < minOut
+    · simp [hlim] at hk
+    · simp only [hlim, if_false] at hk
+      obtain ⟨b2, h3, hk⟩ := bind_ok hk
+      simp only [Res.ok.injEq, Prod.mk.injEq] at hk
+      obtain ⟨e1, e2, e3⟩ := hk
+      subst e1 e2 e3
+      obtain ⟨_, hnd⟩ := validate_noReuse r hv
+      obtain ⟨_, q⟩ := inspectIn_quote M sender hs hc r a w res rr2 w2 h2 hnd
+      have hq := q w (fun _ _ => rfl)
+      refine ⟨⟨rr2, (feeIn prov.isSome rate rr2.tout.amount).2, rr2.tout.amount - (feeIn prov.isSome rate rr2.tout.amount).2⟩, ?_, rfl, rfl, rfl⟩
+      simp [queryIn, calcRouteIn, hq, Res.bind]
+
+end quote
+
 end Sunrise.C03
